@@ -93,6 +93,9 @@ SameUpToRings(a,b) ==
        [] a.t = "GeometryCollection" -> \A i \in 1..Len(a.c) : SameUpToRings(a.c[i], b.c[i])
        [] OTHER -> SameTree(a,b)
 
+\* a GeoJSON round trip is not structure preserving, but its effect is exactly GeoJSON!Loss (M dropped, Z kept iff
+\* there is a position, empty Points of a MultiPoint not written): the codec models compose with the operation model
+GJ == INSTANCE GeoJSON
 \* the result of a structure-preserving action
 Apply(act, arg, g) ==
   CASE act = "force" -> Force(g, arg.ct)
@@ -104,5 +107,6 @@ Apply(act, arg, g) ==
     [] act = "mkgc1" -> MkGC(<<g>>)
     [] act = "mkmulti" -> MkMulti(<<g, arg>>)
     [] act = "mkpoly" -> MkPoly(<<g, arg>>)
+    [] act = "geojson" -> GJ!Loss(g)
     [] act \in {"snap0","densify","wkb","wkt","forcecw","forceccw","viactor"} -> g
 =============================================================================
